@@ -72,6 +72,7 @@ var c02Points = map[string]bool{
 	"get.afterLookup": true, "set.afterCompute": true, "inv.afterCompute": true, "cmp.afterCompute": true, "ev.beforeDelete": true,
 	"ld.beforeInstall": true, "ld.afterInstall": true, "db.enter": true, "mt.task": true, "cp.lock": true, "cp.locked": true,
 	"get.ldMeta": true, "get.ldNode": true, "cp.delNode": true, "cp.replNode": true, "cp.insNode": true,
+	"cp.decSize": true, "cp.incSize": true, "ld.enter": true,
 }
 
 func runC02Scenario(sc c02Scenario) c02Result {
@@ -112,9 +113,14 @@ func runC02Scenario(sc c02Scenario) c02Result {
 	c := Must(o)
 	defer c.StopAllGoroutines()
 	var loads atomic.Int64
-	loader := LoaderFunc[int, int](func(ctx context.Context, k int) (int, error) {
-		return 500000 + int(loads.Add(1)), nil
-	})
+	loaderOf := func(cid int) Loader[int, int] {
+		return LoaderFunc[int, int](func(ctx context.Context, k int) (int, error) {
+			// the load has started: the in-flight record exists; writes called from now on must win over its result
+			log(c02Ev{C: cid, T: "ldstart", Op: "ldget", K: k, RV: -1, Saw: -1})
+			verifhookPoint("ld.enter")
+			return 500000 + int(loads.Add(1)), nil
+		})
+	}
 	ctx := context.Background()
 	b2i := func(b bool) int {
 		if b {
@@ -229,7 +235,7 @@ func runC02Scenario(sc c02Scenario) c02Result {
 				default:
 					log(c02Ev{C: cid, T: "call", Op: "ldget", K: k})
 					lookups.Add(1)
-					got, err := c.Get(ctx, k, loader)
+					got, err := c.Get(ctx, k, loaderOf(cid))
 					hit := 1
 					if got >= 500000 {
 						hit = 0 // a loaded value: this call loaded it, joined its flight, or hit it after it was installed
